@@ -100,13 +100,18 @@ def run(chk):
   chk.assumptions += ['a custom hyper decodes the string number s to the constant 50 + s and encodes it back',
                       'leaf constants are small ints; float decisions are multiples of 0.1',
                       'object templates use pg.Object classes with untyped (Any) fields']
-  r = tlc.run('Hyper', cfg['model'], timeout=1500)
+  with geno.phase(chk, 'tlc_model_and_export'):
+    res = geno.tlc_jobs({
+        'model': lambda: tlc.run('Hyper', cfg['model'], timeout=1500),
+        'export': lambda: tlc.export_json('HyperExport', cfg['export'], env={'SALT': str(chk.seed)}, timeout=900),
+    })
+  r = res['model']
   chk.add_tlc(r)
   chk.notes['model'] = r.summary()
   if not r.ok:
     raise tlc.TLCError(f'{cfg["model"]}: {r.violated} violated in the model (specification defect):\n' + r.out[-3000:])
   chk.require(r.distinct > 1000, f'vacuous: Hyper model explored only {r.distinct} states')
-  entries, r1 = tlc.export_json('HyperExport', cfg['export'], env={'SALT': str(chk.seed)}, timeout=900)
+  entries, r1 = res['export']
   chk.add_tlc(r1, count_states=False)
   chk.require(len(entries) >= 300, f'vacuous: only {len(entries)} template x where pairs exported')
   obs, fails = evaluate(chk, entries, cfg, 'c13')
